@@ -152,6 +152,28 @@ def run(ctx):
             okm = len(zero) == 1 and zero[0][0] == "C" and diag_dir == DIAG[q] and dirs.count("C") == 2
             ctx.report("missing-corner", FN + ":" + key + ":missing-corner-weight-0", okm,
                        "missing %s neighbour: slots %s, zero-weight slots %s" % (diag_dir, dirs, [d for d, _ in zero]), at=at)
+    # the arm selector itself: the boxes above are an assumption on the term the match switches on;
+    # read that term at the corners of the closed unit square (offsets of exactly 1.0 are returned
+    # on forced borders, C03) and on both sides of 1/2
+    import math
+    from rules.common import feval
+    sel = {f[1] for _, facts, _ in arms for f in facts if f[0] == 'eqc' and f[1][0] != 'discr' and any(x == dx or x == dy for x in walk(f[1]))}
+    if len(sel) != 1:
+        ctx.undecided("arms", FN + ":selector", "expected one selector term over (dx, dy), found %s" % [show(x) for x in sel], at=b.span)
+    else:
+        st = next(iter(sel))
+        pts = [0.0, 5e-324, 0.25, math.nextafter(0.5, 0.0), 0.5, math.nextafter(0.5, 1.0), 0.75, math.nextafter(1.0, 0.0), 1.0]
+        bad = []
+        for vx in pts:
+            for vy in pts:
+                got = feval(st, {dx: vx, dy: vy}, eng)
+                okx = {0, 1} if vx == 0.5 else ({1} if vx > 0.5 else {0})
+                oky = {0, 1} if vy == 0.5 else ({1} if vy > 0.5 else {0})
+                if got is None or isinstance(got, bool) or got not in {2 * y + x for x in okx for y in oky}:
+                    bad.append((vx, vy, got))
+        ctx.report("arms", FN + ":selector-picks-the-quarter-of-(dx,dy)", not bad,
+                   "the selector %s read at %d points of [0,1]² (corners, 1.0, both sides of 1/2) gives the quarter whose box the arm's weights were checked on" % (show(st)[:120], len(pts) ** 2) if not bad else
+                   "the selector %s does not give the quarter of (dx, dy) at %s (dx, dy, value; None = not evaluable) — the weights of the arm taken there were checked on another box, or no arm is taken" % (show(st)[:160], bad[:4]), at=b.span)
     missing = [k for k in ["arm(q=%d,%s)" % (q, p) for q in range(4) for p in ("present", "absent")] if k not in seen]
     ctx.report("arms", FN + ":all-8-arms-extracted", not missing, "arms not found: %s" % missing, at=b.span)
     from rules.c03_vertices import hash_with_dxdy_wrap
